@@ -223,6 +223,49 @@ int _vnacal_new_check_all_frequency_ranges(const char *function,
 
 
 /*
+ * _vnacal_new_check_parameter: test if a parameter can be used in vnp
+ *   @function: name of user-called function
+ *   @vnp: pointer to vnacal_new_t structure
+ *   @parameter: parameter index such as VNACAL_ZERO
+ *
+ * Make the checks of _vnacal_new_get_parameter without adding the
+ * parameter to the vnacal_new_t structure, so that a caller can validate
+ * all parameters of a standard before it registers any of them.
+ * Reports the error and returns -1 if the parameter can't be used.
+ */
+int _vnacal_new_check_parameter(const char *function,
+	vnacal_new_t *vnp, int parameter)
+{
+    vnacal_t *vcp = vnp->vn_vcp;
+
+    for (;;) {
+	vnacal_parameter_t *vpmrp;
+
+	if (hash_lookup(&vnp->vn_parameter_hash, parameter) != NULL) {
+	    return 0;
+	}
+	if ((vpmrp = _vnacal_get_parameter(vcp, parameter)) == NULL) {
+	    _vnacal_error(vcp, VNAERR_USAGE, "%s: invalid parameter index %d",
+		    function, parameter);
+	    return -1;
+	}
+	if (vnp->vn_frequencies_valid) {
+	    if (check_single_frequency_range(function, vnp,
+			vnp->vn_frequency_vector[0],
+			vnp->vn_frequency_vector[vnp->vn_frequencies - 1],
+			vpmrp) == -1) {
+		return -1;
+	    }
+	}
+	if (VNACAL_GET_PARAMETER_TYPE(vpmrp) != VNACAL_CORRELATED) {
+	    return 0;
+	}
+	parameter = VNACAL_GET_PARAMETER_INDEX(
+		VNACAL_GET_PARAMETER_OTHER(vpmrp));
+    }
+}
+
+/*
  * _vnacal_new_get_parameter: add/find parameter
  *   @function: name of user-called function
  *   @vnp: pointer to vnacal_new_t structure
